@@ -48,6 +48,7 @@ type TField struct {
 	Req     int
 	T       *TType
 	Default *TVal  // IDL default (scalars/strings only)
+	DefText string // how the default is spelled in the IDL when it is not a literal (constant / enum value, local or included)
 	Anno    string // raw annotation text appended to the IDL field
 	JSConv  bool
 	Query   string // api.query source name ("" = none)
@@ -83,6 +84,19 @@ type TSchema struct {
 	// Includes: extra IDL files (path -> content) and the include lines of the main file
 	Includes    map[string]string
 	IncludeText string
+	// Consts: constant / enum declarations of the main file (defaults spelled through identifiers)
+	Consts []string
+}
+
+// AddInclude registers an included IDL file (and its include line) once.
+func (s *TSchema) AddInclude(path, content string) {
+	if s.Includes == nil {
+		s.Includes = map[string]string{}
+	}
+	if _, ok := s.Includes[path]; !ok {
+		s.IncludeText += "include \"" + path + "\"\n"
+	}
+	s.Includes[path] = content
 }
 
 type TVal struct {
@@ -161,6 +175,9 @@ type tgenOpts struct {
 	// OptionalDefaults lets optional fields carry IDL defaults too (rarely enabled: together with
 	// SetOptionalBitmap+UseDefaultValue it is the precondition of a known native/Go divergence).
 	OptionalDefaults bool
+	// ConstDefaults: some defaults are spelled through identifiers - a constant, a constant defined by another
+	// constant, an enum value, each either in the main file or in an included one
+	ConstDefaults bool
 	// QueryAnno: some scalar / string fields carry (api.query = "q_<name>") - only meaningful for
 	// converters with EnableHttpMapping
 	QueryAnno bool
@@ -171,6 +188,55 @@ type tgen struct {
 	o    tgenOpts
 	sch  *TSchema
 	nctr int
+	inc  []string // declarations of the included file defs.thrift
+}
+
+// constSpelling declares what is needed for the default v to be written through an identifier and
+// returns that identifier ("" = keep the literal).
+func (g *tgen) constSpelling(t *TType, v *TVal) string {
+	lit := renderDefault(v)
+	if lit == "" {
+		return ""
+	}
+	form := g.t.Intn(6, "def.const.form")
+	included := form >= 3
+	decl := func(line string) {
+		if included {
+			g.inc = append(g.inc, line)
+		} else {
+			g.sch.Consts = append(g.sch.Consts, line)
+		}
+	}
+	ref := func(name string) string {
+		if included {
+			return "defs." + name
+		}
+		return name
+	}
+	tn := typeName(t)
+	k := g.ident("K")
+	switch form % 3 {
+	case 0: // constant with a literal value
+		decl(fmt.Sprintf("const %s %s = %s", tn, k, lit))
+		return ref(k)
+	case 1: // constant defined through another constant of the same file
+		k2 := g.ident("K")
+		decl(fmt.Sprintf("const %s %s = %s", tn, k2, lit))
+		decl(fmt.Sprintf("const %s %s = %s", tn, k, k2))
+		return ref(k)
+	default: // enum value (integers only), directly or through a constant
+		if !(t.Kind == tI16 || t.Kind == tI32 || t.Kind == tI64 || t.Kind == tBYTE) || v.I < 0 || v.I > math.MaxInt32 {
+			decl(fmt.Sprintf("const %s %s = %s", tn, k, lit))
+			return ref(k)
+		}
+		e := g.ident("E")
+		decl(fmt.Sprintf("enum %s {\n  %sA = %d\n  %sB = %d\n}", e, e, v.I+1, e, v.I))
+		if g.t.Chance(1, 2, "def.const.enumconst") {
+			decl(fmt.Sprintf("const %s %s = %s.%sB", tn, k, e, e))
+			return ref(k)
+		}
+		return ref(e + "." + e + "B")
+	}
 }
 
 func (g *tgen) scalarType() *TType {
@@ -323,6 +389,9 @@ func (g *tgen) newStruct(depth int) *TStruct {
 		}
 		if g.o.Defaults && (f.Req == reqDefault || (f.Req == reqOptional && g.o.OptionalDefaults)) && g.t.Chance(1, 3, "field.default") {
 			f.Default = g.defaultFor(f.T)
+			if f.Default != nil && g.o.ConstDefaults && g.t.Chance(1, 3, "field.default.const") {
+				f.DefText = g.constSpelling(f.T, f.Default)
+			}
 		}
 		st.Fields = append(st.Fields, f)
 	}
@@ -360,6 +429,9 @@ func genSchema(t *simrt.Tape, o tgenOpts) *TSchema {
 	g := &tgen{t: t, o: o, sch: &TSchema{}}
 	root := g.newStruct(o.MaxDepth)
 	g.sch.Root = &TType{Kind: tSTRUCT, St: root}
+	if len(g.inc) > 0 {
+		g.sch.AddInclude("defs.thrift", "namespace go defs\n\n"+strings.Join(g.inc, "\n")+"\n")
+	}
 	g.sch.IDL = renderIDL(g.sch)
 	return g.sch
 }
@@ -385,6 +457,12 @@ func renderIDL(s *TSchema) string {
 	var sb strings.Builder
 	sb.WriteString(s.IncludeText)
 	sb.WriteString("namespace go sim\n\n")
+	for _, c := range s.Consts {
+		sb.WriteString(c + "\n")
+	}
+	if len(s.Consts) > 0 {
+		sb.WriteString("\n")
+	}
 	for _, st := range s.Structs {
 		fmt.Fprintf(&sb, "struct %s {\n", st.Name)
 		for _, f := range st.Fields {
@@ -398,6 +476,9 @@ func renderIDL(s *TSchema) string {
 			def := ""
 			if f.Default != nil {
 				def = " = " + renderDefault(f.Default)
+				if f.DefText != "" {
+					def = " = " + f.DefText
+				}
 			}
 			fmt.Fprintf(&sb, "  %d: %s%s %s%s%s\n", f.ID, req, typeName(f.T), f.Name, def, f.Anno)
 		}
